@@ -214,13 +214,17 @@ PROPS["C15"] = {
               "answer (value / error) for the parent root and parent header",
     "outside": "the two hash equalities are decided only up to their cut (the application-header hash and the transaction root "
                "are sha256 computations: their result is a symbolic value), PoA signature recovery (secp256k1 FFI), "
-               "collision-resistance claims (any change changes the block id), Block::try_from_executed",
+               "collision-resistance claims (any change changes the block id)",
     "assumptions": ["the database port answers consistently within one verification"],
     "harnesses": [
         H("c15_poa_fields", ["fuel_core_poa::verifier::verify_block_fields", "fuel_core_consensus_module::block_verifier::Verifier::verify_block_fields"],
           "all field values, all database answers", cuts=_C15_CUTS),
         H("c15_genesis_fields", ["fuel_core_consensus_module::block_verifier::verify_genesis_block_fields", "Verifier::verify_block_fields"],
           "all field values and configured genesis heights", cuts=_C15_CUTS),
+        H("c15_try_from_executed", ["fuel_core_types::blockchain::block::Block::try_from_executed"],
+          "a received header with any height, roots, DA height, time and application hash, no transactions",
+          cuts=["ApplicationHeader::hash, BlockHeaderV1::hash -> arbitrary values (so a recomputation is visible)",
+                "BlockHeader::validate_transactions -> symbolic verdict", "recalculate_metadata stays real"]),
     ],
 }
 
